@@ -10,7 +10,7 @@ ID = "C17"
 READY = True
 LEVEL = "exploration"
 WORKERS = {"quick": 8, "thorough": 16}
-BUDGET = {"quick": 60, "thorough": 400}
+BUDGET = {"quick": 150, "thorough": 400}
 MIN_NONTRIVIAL = {"quick": 3000, "thorough": 60000}
 REQUIRED_HOOKS = ["direct", "evaluate:I", "evaluate:C", "context-history", "probe-saw-context", "celpy.c7nlib.intersect", "celpy.c7nlib.glob", "celpy.c7nlib.parse_cidr", "celpy.c7nlib.key", "celpy.c7nlib.arn_split"]
 RULE = (
